@@ -22,7 +22,8 @@ LowerS(s)        == [i \in 1..Len(s) |-> Lower(s[i])]
 \* Non-ASCII representatives used by the generators, with their Go unicode classes.
 \* 233 e-acute (Ll), 201 E-acute (Lu), 8490 Kelvin sign (Lu, folds to k), 383 long s (Ll, folds to s),
 \* 8212 em dash (Pd), 160 NBSP (Zs), 1 control, 127 DEL, 65533 replacement char (So), 42 etc ASCII.
-UnicodeLetters == {233, 201, 8490, 383, 946, 20013}
+\* three-member case-folding orbits: micro sign 181 / capital Mu 924 / small mu 956; small beta 946 / capital Beta 914 / beta symbol 976
+UnicodeLetters == {233, 201, 8490, 383, 946, 20013, 181, 924, 956, 914, 976}
 IsUnicodeLetter(c) == IsAsciiLetter(c) \/ c \in UnicodeLetters
 IsSpaceUni(c) == c \in {9, 10, 11, 12, 13, 32, 133, 160}
 IsControl(c) == (c >= 0 /\ c < 32) \/ (c >= 127 /\ c < 160)
